@@ -230,8 +230,14 @@ def _module_scope_bindings(module):
     return module._scope_bindings
 
 
+_LOOP_ORDINALS_CACHE = {}  # id(node) -> (node, result); the result is a pure function of the AST node
+
+
 def loop_ordinals(fnode):
     """Number the loops of a function body in source order (nested defs excluded)."""
+    cached = _LOOP_ORDINALS_CACHE.get(id(fnode))
+    if cached is not None and cached[0] is fnode:
+        return cached[1]
     out = {}
     counter = [0]
 
@@ -245,6 +251,7 @@ def loop_ordinals(fnode):
             visit(child)
 
     visit(fnode)
+    _LOOP_ORDINALS_CACHE[id(fnode)] = (fnode, out)
     return out
 
 
